@@ -61,6 +61,9 @@ DONE = {
  "C11": ("property-based differential testing across four builds of the same binary (big-integer backends ibig, dashu, malachite, num_bigint as separate processes), bitwise, plus exhaustive small-grid tuples and an independent determinant",
          "Exploration with an exhaustively enumerated sub-space: 1500 (quick) / 60 000 (thorough) degenerate-weighted inputs (exact path taken in about half of them) each with 8 integer 5-tuples; all 8^5 (quick) / 27^5 (thorough) 5-tuples of a small grid at two offsets; tessellation dumps, exact-call counters and predicate signs compared across all four backends and with the harness' determinant.",
          "Trusted: the harness' Bareiss determinant (C10). rug cannot be built offline and is not compared.", "5 C11"),
+ "C15": ("property-based testing with validity predicates in both directions on every with_faces() cell + stateful generation (operation sequences over with_faces / discard_faces / clone / integrals / accessors with a one-bit model) + rejection of 1D/2D; release and debug-assertion builds",
+         "Exploration: 3000 (quick) / 120 000 (thorough) generated inputs per build profile (90% 3D from all families x masks, 10% 1D/2D), about 60 000 cells / 550 000 polygons / 10^6 vertices per quick run; geometric predicates on well-conditioned cells, combinatorial ones (incidence, edge sharing, Euler, ordering, accessor agreement, round trip) on all.",
+         "Trusted: nothing beyond the harness. The type-state invariant behind the unchecked accessors is exercised on every public transition sequence but cannot be shown for code paths that do not exist yet (DESIGN.md section 6).", "5 C15, 6"),
 }
 NOT_YET = "check under construction (work in progress; see DESIGN.md section 5)"
 ALL = ["C%02d" % i for i in range(1, 21)]
